@@ -1,4 +1,4 @@
 SPECIFICATION FairSpec
-INVARIANT IndexConsistent PublishedOnly CommittedSurvive
+INVARIANT IndexConsistent PublishedOnly CommittedSurvive CommittedOnDisk
 PROPERTY EvictOnlyExpired EventuallyEvicted
 CHECK_DEADLOCK FALSE
